@@ -94,7 +94,10 @@ class C01(Prop):
         "ports (termination tokens interleaved at any legal position), a depth-1 gather emits exactly one list token "
         "with the original tag holding the elements in original order, then terminates COMPLETED (C01_roundtrip); the "
         "same for any number of concurrently gathered lists with distinct tags, arrivals arbitrarily interleaved "
-        "(C01_many_keys); nesting by composition of depth-1 scatter/gather pairs (C01_nested_two_levels); ONE gather of "
+        "(C01_many_keys; with any termination statuses other than FAILED, e.g. the SKIPPED a level whose lists are all empty "
+        "receives: C01_many_keys_any_status, and C01_status_independent: what a gather of any depth emits does not depend on "
+        "those statuses); the empty list through the real pipeline (C01_empty); nesting of any depth d by d chained depth-1 "
+        "gathers, each level with arbitrary arrival order and statuses (C01_nested_d); nesting by composition of depth-1 scatter/gather pairs (C01_nested_two_levels); ONE gather of "
         "depth d over d scatter levels returns the flat list in compare_tags order, ragged shapes included, and with the "
         "product size in the rectangular case (C01_gather_depth_d, C01_gather_depth_d_product); element 10 "
         "after element 9 (C01_numeric_order). The model is tied to /repo by driving the real ScatterStep and "
